@@ -120,6 +120,15 @@ type verifWALProxy struct {
 	mu   sync.Mutex
 	req  int // sequence number of the HTTP request being served
 	held []verifHeld
+
+	// pass-through mode ("wu" step): the writer mutex is held (VerifWRLock) so the writer goroutine cannot
+	// persist; appends go straight to the real writer WITHOUT copying, and the caller's slices are remembered
+	// so that they can be overwritten the way a recycled fasthttp request buffer would be
+	locked   bool
+	lockReq  int // only the appends of this request pass through; later requests are held as usual
+	base     int64 // total_entries when the mutex was taken
+	through  int
+	callerBB [][]byte
 }
 
 type verifHeld struct {
@@ -135,15 +144,29 @@ func (p *verifWALProxy) hold(f func() error) error {
 }
 
 func (p *verifWALProxy) Append(records []map[string]interface{}) error {
+	if p.locked && p.req == p.lockReq {
+		p.through++
+		return p.w.Append(records)
+	}
 	return p.hold(func() error { return p.w.Append(records) })
 }
 
 func (p *verifWALProxy) AppendRaw(payload []byte) error {
+	if p.locked && p.req == p.lockReq {
+		p.through++
+		p.callerBB = append(p.callerBB, payload)
+		return p.w.AppendRaw(payload)
+	}
 	cp := append([]byte(nil), payload...) // the caller's slice is the fasthttp body buffer
 	return p.hold(func() error { return p.w.AppendRaw(cp) })
 }
 
 func (p *verifWALProxy) AppendRawWithMeta(database string, payload []byte) error {
+	if p.locked && p.req == p.lockReq {
+		p.through++
+		p.callerBB = append(p.callerBB, payload)
+		return p.w.AppendRawWithMeta(database, payload)
+	}
 	cp := append([]byte(nil), payload...)
 	db := strings.Clone(database)
 	return p.hold(func() error { return p.w.AppendRawWithMeta(db, cp) })
@@ -163,6 +186,21 @@ func verifTotalEntries(w *wal.Writer) int64 {
 // request makes one append per item) to the real writer and waits until the writer goroutine
 // has written them to the file.
 func (p *verifWALProxy) releaseOne() (int, error) {
+	if p.locked {
+		// the queued entries of the pass-through request: let the writer goroutine run
+		n := p.through
+		p.locked, p.through, p.callerBB = false, 0, nil
+		base := p.base
+		p.w.VerifWRUnlock()
+		deadline := time.Now().Add(60 * time.Second)
+		for verifTotalEntries(p.w) < base+int64(n) {
+			if time.Now().After(deadline) {
+				return n, fmt.Errorf("wal writer did not write the queued entries within 60s")
+			}
+			time.Sleep(200 * time.Microsecond)
+		}
+		return n, nil
+	}
 	p.mu.Lock()
 	if len(p.held) == 0 {
 		p.mu.Unlock()
@@ -313,6 +351,7 @@ func verifServe(base string) {
 			Path    string            `json:"path"`
 			Headers map[string]string `json:"headers"`
 			Body    string            `json:"body_b64"`
+			Lock    bool              `json:"lock"`
 		}
 		if err := json.Unmarshal([]byte(line), &cmd); err != nil {
 			vio.say(map[string]interface{}{"ev": "error", "err": "bad command: " + err.Error()})
@@ -324,6 +363,12 @@ func verifServe(base string) {
 			proxy.mu.Lock()
 			proxy.req++
 			proxy.mu.Unlock()
+			if cmd.Lock && !proxy.locked {
+				proxy.base = verifTotalEntries(walWriter)
+				walWriter.VerifWRLock()
+				proxy.locked = true
+				proxy.lockReq = proxy.req
+			}
 			req := httptest.NewRequest("POST", cmd.Path, bytes.NewReader(body))
 			for k, v := range cmd.Headers {
 				req.Header.Set(k, v)
@@ -339,6 +384,16 @@ func verifServe(base string) {
 			held := len(proxy.held)
 			proxy.mu.Unlock()
 			vio.say(map[string]interface{}{"ev": "written", "status": resp.StatusCode, "resp": string(rb), "held": held})
+		case "reuse":
+			// the request buffer is recycled: overwrite what the handler passed to the WAL writer
+			n := 0
+			for _, b := range proxy.callerBB {
+				for i := range b {
+					b[i] = 0xAA
+				}
+				n += len(b)
+			}
+			vio.say(map[string]interface{}{"ev": "reused", "bytes": n, "appends": proxy.through})
 		case "persist":
 			n, err := proxy.releaseOne()
 			m := map[string]interface{}{"ev": "persisted", "released": n > 0, "appends": n, "entries": verifTotalEntries(walWriter)}
